@@ -390,6 +390,7 @@ pub fn run(tier: Tier) -> i32 {
         }
     }
     rep.set("rule", json!(format!("(single) 9 reference elements with known boxes (rects incl. negative/fractional, circle, ellipse, reversed line, box, point, group of two rects) referenced by #id and by ^ x dependent {{rect, circle, ellipse}} in 2 size spellings x {} relspec forms: 4 directions x 4 gaps; 23 locations (9 named + 14 edge offsets abs/negative/percent/over 100%) x 5 dx-dy forms x 10 anchors (xy, cxy, xy + 8 xy-loc values); per-axis x/x2/cx and y/y2/cy with locations and with 9 scalar pairs (~x ~y ~x2 ~y2 ~cx ~cy ~w ~h ~r ~rx ~ry ~x1 ~y1) x 4 deltas (none, abs, percent, negative); bare references; 8 relative-size forms (wh=#r, percent, abs pair, ~h/~w, dw/dh abs/percent, ~rx){}. (chains) all ordered pairs of a 14-form covering set as 2-link chains and 3-link chains over 6 forms, mixing #id and ^ links, the model's expected box of each link feeding the next. Oracle: reference layout model in f64 on the known boxes; the output element's native geometry must describe the expected box within 0.0005 per rounded intermediate. Non-trivial = Ok and all boxes as expected.", fs.len(), if tier == Tier::Quick { " (quick: every third combination of the location/scalar forms, all direction/size forms)" } else { "" })));
+    rep.set("also_later", json!("Rounds 4-5 added: viewport elements with content placed like their empty forms; polygon / polyline placed by the box of their points; <use> of targets given by their centre or not at the origin (direction, location, cxy, plain x / y); '^' after an <if> / group whose last element waited."));
     rep.set("also", json!("Also: the dependent element written with an explicit end tag, with a <title> child, with a comment as content, and with white space before the reference (on two references); <box> and <point> as dependent elements, observed through probe elements at their corners; '^' after / in / following a deferred element."));
     if deep {
         let r = rep.coverage.get("rule").and_then(|v| v.as_str()).unwrap_or("").to_string();
